@@ -760,14 +760,13 @@ def replay(ctx, data):
     return None
 
 
-LEVEL_TEXT = ('Machine-checked proof (Coq 8.16.1) over a model re-translated from /repo on every run: for every int declaration (size, unsigned, min, max) Pony accepts and every '
-              'integer v, IntConverter.validate accepts v (unchanged) iff v satisfies the declared bounds (zero included) and the range of the declared size/signedness, else raises ValueError '
-              '(C08_int_declaration, C08_int, C08_int_reject); the same for float (all non-NaN values, C08_float), Decimal (C08_decimal), str (autostrip + max_len, with a proved '
-              'characterisation of strip()), for None/empty/required/nullable/py_check handling of Attribute.validate / Required.validate over any converter (C08_optional, C08_required, C08_required_int), '
-              'the declared TYPE per converter (C08_declared_type: a finite table interpreted from each validate on one representative value per Python type, proved equal to the documented coercions), '
-              'Decimal(precision, scale) declarations (C08_decimal_declaration), assignment in any prior state and the creation/set/get/filter entry points (C08_assignment_*, C08_entry_points_validate: call sites scanned). '
-              'Remaining defects of the code (witnesses in Findings/C08.v): max_len = 0 means "no limit", float NaN passes any bounds, bool attributes accept any value (bool(val)), Decimal precision/scale are never compared with the value. '
-              'The int/float zero-bound defect found by this check was repaired in /repo (2abc421); the unrestricted theorems compute the defect flags to false from the regenerated translation, so a regression breaks them.')
+LEVEL_TEXT = ('Machine-checked proof (Coq 8.16.1) over a model re-translated from /repo on every run: for every int declaration (size, unsigned, min, max) Pony accepts and every integer v, '
+              'IntConverter.validate accepts v (unchanged) iff v satisfies the declared bounds (zero included) and the range of the declared size/signedness, else ValueError (C08_int_declaration, C08_int, C08_int_reject); '
+              'float for EVERY value incl. NaN (C08_float), Decimal (C08_decimal), str (C08_str: autostrip + max_len incl. 0, with a proved characterisation of strip()); None/empty/required/nullable/py_check of '
+              'Attribute.validate / Required.validate over any converter (C08_optional, C08_required, C08_required_int); the declared TYPE of all 11 converters incl. bool (C08_declared_type: a finite table interpreted from each '
+              'validate on one representative value per Python type, proved equal to the documented coercions); Decimal(precision, scale) declarations; assignment in any prior state and the create/set/get/filter entry points '
+              '(call sites scanned). Seven defects found by this check were repaired in /repo (2abc421, 5df2d83, d8f353a, 2d5f552): the unrestricted theorems compute the defect flags from the regenerated translation, so a '
+              'regression breaks them and the search reports the concrete input. Remaining finding (witness in Findings/C08.v): Decimal precision/scale are never compared with the value.')
 LEVEL_NOTE = ('Trusted: Coq kernel + vm_compute; the py2coq translator (cross-checked against the real classes on every run: ~10^4 (declaration, value) pairs, each also driven through '
               'Entity(...), assignment, set(), get() on SQLite); the hand-written composition of Attribute/Required.validate (correspondence-checked); the value abstraction '
               '(floats/Decimals as exact rationals, strings as code points). Not modelled: conversion of foreign input types (int("12"), float(Decimal) ...), DEFAULT handling, relationships, '
